@@ -142,6 +142,9 @@ fn c01_one(ctx: &mut Ctx, c: &DayCase) {
     if !reported_is_computed(ctx, c, &h, &[(2, Prayer::Dhuhr)]) {
         return;
     }
+    // the reported instant is a clock time of the requested civil date: an hour outside [0, 24) is
+    // reported wrapped into the day, and that is the instant the property speaks about
+    let dhuhr = dhuhr.rem_euclid(24.);
     let (ha, _, s) = hour_angle_alt(jd_of(c, dhuhr), lat(c), lon(c));
     let secs = ha * 240.;
     ctx.nontrivial(&format!("{}|{:.0}|{:.0}", c.rd, lat(c), lon(c)));
@@ -175,11 +178,18 @@ pub fn c01(ctx: &mut Ctx, tier: &str, r: &mut Rng, js: &[Value], reqs: &[String]
     let n = sz!(tier, 5000, 250000);
     for i in 0..n {
         let m = r.pick(&METHODS).0;
-        let l = gen_location(r, 90., 6.);
+        let mut l = gen_location(r, 90., 6.);
         let mut rd = boundary_rd(r);
         if i % 5 == 0 {
             // the days around the March equinox where the RA wraps 360 -> 0
             rd = rd_of(r.int(1600, 2399) as i32, 3, 18) + r.int(0, 6);
+        }
+        if i % 7 == 3 {
+            // the ends of the zone range: the transit fraction (ra - lon - sidereal)/360 leaves
+            // [-1, 1] only with the clock 12 h from Greenwich
+            ctx.branch("zone-end");
+            let s = if r.chance(0.5) { 1. } else { -1. };
+            l = loc(lat(&plain(m, l, rd)), s * r.range(90., 180.), 0., 12. * s);
         }
         let c = plain(m, l, rd);
         if i == 0 {
@@ -293,7 +303,7 @@ fn c03_one(ctx: &mut Ctx, c: &DayCase) {
             return;
         }
     };
-    let dhuhr = h[2].unwrap_or(12.);
+    let dhuhr = h[2].unwrap_or(12.).rem_euclid(24.); // the reported clock time of the requested date
     if !reported_is_computed(ctx, c, &h, &[(0, Prayer::Fajr), (5, Prayer::Isha)]) {
         return;
     }
